@@ -151,10 +151,10 @@ def compare_case(mod, d, case, gen, opts):
         if opts.get("err", True):
             if not ro["err"]["unpacking"]:
                 mm.append(("C12.phase", "unpack failure flagged as packing"))
-            if generic and ro["err"]["stack"] != u["err"]:
-                mm.append(("conf_err", "code %r, specification %r" % (ro["err"]["stack"], u["err"])))
-            elif not generic and len(ro["err"]["stack"]) != len(u["err"]):
-                mm.append(("conf_err_depth", "code %r, specification %r" % (ro["err"]["stack"], u["err"])))
+            vec = True if gen is None else bool(gen.get("vectorize", True))
+            exp = u["err"] if generic else (u["errv"] if vec else u["errn"])      # generated code names the struct block
+            if ro["err"]["stack"] != exp:
+                mm.append(("conf_err", "code %r, specification %r" % (ro["err"]["stack"], exp)))
     if opts.get("reads", True):
         if generic:
             if norm_reads(ro["reads"]) != norm_reads(u["reads"]):
@@ -184,8 +184,10 @@ def compare_case(mod, d, case, gen, opts):
                 mm.append(("C12.str_total", "str(PacketError) failed: " + po["str_error"]))
             if po["err"]["unpacking"]:
                 mm.append(("C12.phase", "pack failure flagged as unpacking"))
-            if generic_p and opts.get("err", True) and po["err"]["stack"] != p["err"]:
-                mm.append(("conf_perr", "pack: code %r, specification %r" % (po["err"]["stack"], p["err"])))
+            vecp = True if gen is None else bool(gen.get("vectorize", True))
+            expp = p["err"] if generic_p else (p["errv"] if vecp else p["errn"])
+            if opts.get("err", True) and po["err"]["stack"] != expp:
+                mm.append(("conf_perr", "pack: code %r, specification %r" % (po["err"]["stack"], expp)))
     return mm, ro, po
 
 
